@@ -155,7 +155,7 @@ def run(ck):
             "index_.end() is returned; get returns &value only with find() != end, del erases only what find() returned; Entry::expired is expires < squid_curtime")
     fd = inst("find")
     need_locals(ck, fd, "i", "entryPosition", "key")
-    expired = E.m_calls(CM + "Entry::expired")
+    expired = ck.m_result_of(fd, CM + "Entry::expired")
     is_end = E.M(lambda t: "i" in E.mentions(t) and calls_on(t, INDEX, "end") and not calls_on(t, ENTRIES, "begin"), "i==index_.end()")
     at_front = E.M(lambda t: "entryPosition" in E.mentions(t) and calls_on(t, ENTRIES, "begin"), "entryPosition==entries_.begin()")
 
@@ -185,7 +185,8 @@ def run(ck):
     ex = inst("Entry::expired")
     for s in ck.sites(ck.flow(ex), ev_return(), "return", 1):
         x = E.strip(s.ev.get("x"))
-        if x.get("k") == "bin" and x.get("op") == "<" and E.m_is_mem(CM + "Entry::expires")(x["l"]) and E.m_is_ref("squid_curtime")(x["r"]):
+        exp, now = E.m_is_mem(CM + "Entry::expires"), E.m_is_ref("squid_curtime")
+        if x.get("k") == "bin" and ((x.get("op") == "<" and exp(x["l"]) and now(x["r"])) or (x.get("op") == ">" and now(x["l"]) and exp(x["r"]))):
             ck.ok("F1.expiry-strict", s.where(), "expired() is expires < squid_curtime")
         else:
             ck.violation("F1.expiry-strict", "F1|expired", s.where(), "Entry::expired() is %s (a ttl-0 entry must stay valid for the current second, an entry past its time must not)" % E.key(x))
